@@ -210,12 +210,21 @@ def _lazy_state(E, fn):
             defs.setdefault(n.id, []).extend([None, None])
     st = M.State(E.env0)
     busy = set()
+    alt = {"alternatives": {k: d for k, d in defs.items() if 2 <= len(d) <= 4 and all(x is not None for x in d)}, "choice": {}}     # locals bound in several arms
 
     class Env(dict):
         def _resolve(self, k):
             if dict.__contains__(self, k):
                 return dict.__getitem__(self, k)
             d = defs.get(k)
+            if k in alt["choice"] and d is not None and k not in busy:
+                busy.add(k)
+                try:
+                    return E.ev(d[alt["choice"][k]], st)
+                except Unsupported:
+                    return ("sym", k)
+                finally:
+                    busy.discard(k)
             if d and len(d) == 1 and d[0] is not None and k not in busy:
                 busy.add(k)
                 try:
@@ -242,6 +251,7 @@ def _lazy_state(E, fn):
 
     env = Env()
     env.update(E.env0)
+    env.alt = alt
     st.env = env
     return st
 
@@ -277,6 +287,9 @@ def _string_roots(fn):
                 top = p_
             elif isinstance(p_, ast.Attribute) and p_.attr == "format" and isinstance(parent(p_), ast.Call) and parent(p_).func is p_:
                 top = parent(p_)
+            elif isinstance(p_, (ast.GeneratorExp, ast.ListComp)) and p_.elt is top and isinstance(parent(p_), ast.Call) \
+                    and isinstance(parent(p_).func, ast.Attribute) and parent(p_).func.attr == "join" and p_ in parent(p_).args:
+                top = parent(p_)            # sep.join(<text> for x in xs): the text is rendered for the items of xs
             else:
                 break
         roots[id(top)] = top
@@ -322,6 +335,14 @@ def _float_specs(v, out, node):
                     out.append((it[1], None, val, node))
         elif x[0] == "rep":
             _float_specs(x[1], out, node)
+        elif x[0] == "join" and isinstance(x[2], tuple) and x[2][:1] == ("comp",) and isinstance(x[2][1], S):
+            # sep.join(<text> for item in items): the text once per known item, else once for the generic item
+            elt, it, tv = x[2][1], x[2][2], x[2][3]
+            if isinstance(it, tuple) and it[:1] == ("tuple",) and not any(isinstance(y, tuple) and y[:1] == ("star",) for y in it[1]) and isinstance(tv, tuple):
+                for item in it[1]:
+                    _float_specs(M.subst(elt, tv, item), out, node)
+            else:
+                _float_specs(elt, out, node)
 
 
 def _value_role(v):
@@ -445,12 +466,22 @@ def _width_obligations(ctx, once):
                         if bound:
                             work.append((h, bound))
             for root in _string_roots(body):
-                try:
-                    v = E.ev(root, st)
-                except Unsupported:
-                    continue
+                # a local the text is built from that is bound in several arms (`parts = (num,)` / `parts = (num.real, num.imag)`): the text is
+                # evaluated once per binding
+                alts = [nm for nm in sorted({x.id for x in ast.walk(root) if isinstance(x, ast.Name) and isinstance(x.ctx, ast.Load)}) if nm in st.env.alt["alternatives"]][:2]
+                combos = [{}]
+                for nm in alts:
+                    combos = [dict(c, **{nm: i}) for c in combos for i in range(len(st.env.alt["alternatives"][nm]))]
                 specs = []
-                _float_specs(v, specs, root)
+                for choice in combos:
+                    st.env.alt["choice"] = choice
+                    try:
+                        v = E.ev(root, st)
+                    except Unsupported:
+                        continue
+                    finally:
+                        st.env.alt["choice"] = {}
+                    _float_specs(v, specs, root)
                 for sp, role, val, node in specs:
                     n += 1
                     W = sp.width or 0
@@ -1140,28 +1171,15 @@ def r2_nonempty_vector(ctx):
             why.append(f"the count is set to {show(e.d['value'])} without a test that it exceeds 1")
     # the accessor chosen for a vector whose length is not 1 (and which is not 2-D) indexes element i; a zero-length vector reaches it
     acc = None
+    mw = ctx.src.mod(WRITER)
     for e in E.events("call"):
         if e.d["attr"] in ("append", "extend", "insert") and e.loops and e.d["args"] and isinstance(e.d["args"][-1], tuple) \
-                and e.d["args"][-1][:1] in (("func",), ("sym",), ("lambda",)):
+                and e.d["args"][-1][:1] in (("func",), ("sym",), ("lambda",), ("obj",), ("closure",)):
             ref = e.d["args"][-1]
-            name = str(ref[1])
-            mw = ctx.src.mod(WRITER)
-            if ref[0] == "lambda":
-                lam = getattr(E, "lambdas", {}).get(ref[1])
-                if lam is None or len(lam.args.args) != 2:
-                    continue
-                a, i = (x.arg for x in lam.args.args)
-                Es = M.Engine(mw, fn)
-                rets = [Es.ev(lam.body, M.State({a: ("sym", a), i: ("sym", i)}))]
-                name = "<lambda>"
-            else:
-                sub = mw.funcs.get("vecwrite." + name) if ref[0] == "func" else mw.funcs.get(name)
-                if sub is None or len(sub.args.args) != 2:
-                    continue
-                a, i = (x.arg for x in sub.args.args)
-                Es = M.Engine(mw, sub)
-                Es.run()
-                rets = [r.d["value"] for r in Es.events("return")]
+            got = _accessor_returns(E, mw, fn, ref)
+            if got is None:
+                continue
+            name, a, i, rets = got
             idx = ("elem", ("sym", a), ("sym", i))
             if rets and all(r == ("tuple", (idx,)) for r in rets):
                 # 1-D accessor: can the vector be empty here?
@@ -1350,6 +1368,40 @@ def r2_nonempty_vector(ctx):
         ctx.ok(f"non-empty vector contract bound to {nsites} call sites", BULK + ":1", nontrivial=False)
     else:
         ctx.error(f"non-empty vector contract bound to {nsites} call sites (at least 2 expected)", BULK + ":1")
+
+
+def _accessor_returns(E, mw, fn, ref):
+    """(name, first parameter, second parameter, values returned) of the two-argument accessor `ref(a, i)` - a nested or module-level function, a
+    lambda, a callable object of a class of the module (its __call__, own or inherited) - evaluated on symbols; None when it is none of these"""
+    while ref[:1] == ("closure",):
+        ref = ref[1]
+    if ref[0] == "lambda":
+        lam = getattr(E, "lambdas", {}).get(ref[1])
+        if lam is None or len(lam.args.args) != 2:
+            return None
+        a, i = (x.arg for x in lam.args.args)
+        Es = M.Engine(mw, fn)
+        return "<lambda>", a, i, [Es.ev(lam.body, M.State({a: ("sym", a), i: ("sym", i)}))]
+    if ref[0] == "obj":
+        Eo = M.Engine(mw, fn, follow={})
+        m_ = Eo._method(ref[1], "__call__") if ref[1] in Eo.classes else None
+        if m_ is None or m_[1] != "method" or len(m_[0].args.args) != 3:
+            return None
+        sub = m_[0]
+        self_, a, i = (x.arg for x in sub.args.args)
+        Es = M.Engine(mw, sub, params={self_: ref}, follow={})
+        Es.run()
+        return f"{ref[1]}.__call__", a, i, [r.d["value"] for r in Es.events("return")]
+    name = str(ref[1])
+    sub = getattr(E, "funcnodes", {}).get(ref[2]) if ref[0] == "func" and len(ref) > 2 else None
+    if sub is None:
+        sub = mw.funcs.get("vecwrite." + name) if ref[0] == "func" else mw.funcs.get(name)
+    if sub is None or len(sub.args.args) != 2:
+        return None
+    a, i = (x.arg for x in sub.args.args)
+    Es = M.Engine(mw, sub)
+    Es.run()
+    return name, a, i, [r.d["value"] for r in Es.events("return")]
 
 
 def _line_buffer(ctx, E, fn):
@@ -1909,6 +1961,14 @@ def _dmig(ctx):
             mt = a_.d["value"]
             break
         if not M.is_int_const(mt):
+            # wherever the type is kept (a local, a field of a record): it is what the header card of this matrix shows in its fifth field
+            for h_ in reversed([x for x in E.events("call") if is_write(x) and x.seq < e.seq and set(x.facts) <= set(e.facts) and isinstance(x.d["args"][0], S)
+                                and x.loops == e.loops[:1]]):
+                hv = _card_column(h_.d["args"][0], "DMIG    ", 32, 40)
+                if hv is not None:
+                    mt = hv
+                    break
+        if not M.is_int_const(mt):
             v.unknown(f"matrix type {show(mt)}")
             continue
         k = M.ival(mt)
@@ -1930,6 +1990,42 @@ def _dmig(ctx):
         v.unknown({"matrix types seen": sorted(kinds)})
     v.report(ctx, "wtdmig: double-precision types (even mtype) use the D exponent", wd)
     _dmig_layout(ctx, E, Er, terms, prim, wd, rd)
+
+
+def _card_column(text, name8, c0, c1):
+    """the value shown in columns c0..c1 of the first line of a written text that starts with the 8-column card name `name8`: the formatted value that
+    fills exactly these columns, or the integer a literal piece shows there; None when the text is not that card or the columns are not one field"""
+    col = 0
+    first = True
+    for p_ in text.p:
+        if p_[0] == "lit":
+            t = p_[1].split("\n")[0]
+            if first and not t.startswith(name8):
+                return None
+            if col <= c0 and col + len(t) >= c1:
+                piece = t[c0 - col:c1 - col].strip()
+                try:
+                    return Lin(c=int(piece))
+                except ValueError:
+                    return None
+            if "\n" in p_[1]:
+                return None
+            col += len(t)
+        elif p_[0] == "fv":
+            if first:
+                return None
+            sp = M.parse_spec(p_[1]) if p_[1] is not None else None
+            if sp is None or sp.width is None:
+                return None
+            if col == c0 and sp.width == c1 - c0:
+                return p_[2] if isinstance(p_[2], Lin) else None
+            col += sp.width
+        else:
+            return None
+        first = False
+        if col > c0:
+            return None
+    return None
 
 
 def _affine(idx, E, lid):
@@ -2550,8 +2646,21 @@ def _int_records(E, e, seq, N):
         layout = True
         if nints is None or any(it[1] is None or it[1].width is None for it in fields) or any(it[0] not in ("text", "field", "rep") for it in items):
             layout = None
-        elif any(it[1].width != 8 for it in fields) or text != "\n" or len(heads) > 1 or (heads and items[0] is not heads[0]):
+        elif any(it[1].width != 8 for it in fields) or text not in ("\n", "") or len(heads) > 1 or (heads and items[0] is not heads[0]):
             layout = False
+        elif text == "":
+            # the template has no newline of its own: the line is complete when what is written is the rendered text followed by one
+            # (print(text, file=f), f.write(text + "\n")); anything else is not understood here
+            val = e.d.get("value")
+            done = False
+            for w_ in E.events("call"):
+                if w_.seq > e.seq and is_write(w_) and isinstance(w_.d["args"][0], S) and isinstance(val, S) and w_.loops == e.loops:
+                    wp = w_.d["args"][0].p
+                    if wp[:len(val.p)] == val.p and S(wp[len(val.p):]).text() == "\n":
+                        done = True
+                    break
+            if not done:
+                layout = None
         return {"nints": nints, "a": a, "b": b, "head": bool(heads), "layout": layout, "count": (e.d.get("nfields"), e.d.get("nargs")), "shown": repr(e.d["template"])}
     if e.kind == "call" and is_write(e) and isinstance(e.d["args"][0], S) and any(x[0] == "join" for x in e.d["args"][0].p):
         parts = list(e.d["args"][0].p)
@@ -2797,11 +2906,21 @@ def _related(syms, facts=()):
     return False
 
 
+_READERS = {"rdcards", "rdcord2cards", "rdgrids", "rdtabled1", "rdspoints", "rdcsupers", "rdextrn", "rdsets", "rddmig"}
+
+
 def _computed(at):
     """an atom that is not free to choose: it is (or is taken from) the result of something this engine does not evaluate - a call it does not
     know, an element of a range or of a generated sequence, a conditional value.  Lengths / dimensions are judged by `_derived` / `_related`."""
     if isinstance(at, tuple) and at[:1] in (("len",), ("dim",), ("flen",)):
-        return False
+        # the length of what a call this engine does not know returned (`template.rstrip("\n")`, `list(islice(...))`) is a function of the call's
+        # arguments: not free either.  Lengths of variables, of their elements / slices / attributes, and of strings are.
+        v = at[1]
+        while isinstance(v, tuple) and v[:1] in (("elem",), ("slice",), ("attr",)):
+            v = v[1]
+        if isinstance(v, tuple) and v[:1] == ("op",) and str(v[1]).split(".")[-1].startswith("rd") and str(v[1]).split(".")[-1] in _READERS:
+            return False            # what a reader of the module returns is input data: cards of any length
+        return isinstance(v, tuple) and v[:1] in (("op",), ("comp",), ("built",), ("ite",), ("obj",))
 
     def bad(v, top=True):
         if isinstance(v, Lin):
@@ -2960,7 +3079,14 @@ def _tiling(ctx, E, q, seq, fn):
             a0 = recs[0]["a"]
             stride = a0.t.get(tat, 0) if tat is not None else None
             if stride is None or stride.denominator != 1 or stride < 1:
-                v.unknown({"loop": show(it), "position written first in a pass": show(a0)}, head.node)
+                # the position is not a multiple of the loop variable plus an offset (it is clamped, ...): the passes of the loop are run for small
+                # lengths - a pass that does not start where the one before it stopped, or a last pass that stops short of the end when nothing is
+                # written after the loop, is a counter-example
+                w = _passes_by_hand(head, grp, recs, writes, wp, tat) if tat is not None else None
+                if w is not None:
+                    v.bad(w, head.node)
+                else:
+                    v.unknown({"loop": show(it), "position written first in a pass": show(a0)}, head.node)
                 return None
             off = a0 - head.d["target"].scale(stride)
             if any(M.mentions(at, t_) for at in off.t for t_ in tsym):
@@ -3022,6 +3148,76 @@ def _tiling(ctx, E, q, seq, fn):
             whole = M.mk_min([lin(pit[2]), N], head.facts)
             default = whole if isinstance(aft, Lin) and _differs(aft - whole, head.facts)[0] is False else aft
         return default, after
+
+    def _passes_by_hand(head, grp, recs, writes, wp, tat):
+        """run the passes of `for t in range(lo, hi, step)` - one arm, one write of seq[a(t):b(t)] per pass, nothing written after the loop on any
+        path - for small values of the quantities involved, under the tests passed before the loop.  Returns the description of a counter-example
+        (a pass that starts somewhere else than where the writing stopped; elements left at the end) or None."""
+        L = head.d["loop"]
+        if any(x.kind == "loopexit" and x.d.get("by") == "break" and x.d["loop"] == L for x in E.events("loopexit")):
+            return None
+        # the arms of the body: the tests each one passes and the one slice it writes (or none)
+        arms = []
+        for end, arm in arms_of(grp, L, None):
+            wr = [(x, rec_of(x)) for x in arm if rec_of(x) is not None]
+            if len(wr) > 1 or any(len(x.loops) > len(end.loops) for x, _ in wr) or any("unknown" in r_ for _, r_ in wr):
+                return None
+            arms.append(([f_ for f_ in end.facts if f_ not in head.facts], wr[0][1] if wr else None))
+        if not arms:
+            return None
+        last_seq = max(x.seq for x in grp)
+        if any(rec_of(x) is not None and x.seq > last_seq for s_ in E.finals for x in s_.events if any(y is head for y in s_.events)):
+            return None
+        it = head.d["iter"]
+        exprs = [lin(it[1]), lin(it[2]), lin(it[3]), lin(wp), N] + [r_[k_] for _, r_ in arms if r_ is not None for k_ in ("a", "b")]
+        syms = [x for x in M.free_symbols(*exprs) if x != tat]
+        facts = [(t, pol) for t, pol in head.facts if not M.mentions(t, tat)]
+        for t, _ in facts + [f_ for fs_, _ in arms for f_ in fs_]:
+            for x in M.free_symbols(t):
+                if x not in syms and x != tat:
+                    syms.append(x)
+        if not syms or len(syms) > 3 or any(_computed(x) for x in syms) or _related(syms, facts):
+            return None
+        import itertools
+        nat = ("len", seq)
+        # lengths from 1 up; `start` of wtnasints is a field number of the first line: 2 .. 9 (field 1 holds the card name, field 10 the continuation)
+        rngs = [range(1, 27) if x == nat else range(2, 10) if x == ("sym", "start") and q == "wtnasints" else range(0, 13) for x in syms]
+        for combo in itertools.product(*rngs):
+            asg = dict(zip(syms, combo))
+            if any(M.truth(t, asg) is not pol for t, pol in facts if any(M.mentions(t, x) for x in syms)):
+                continue
+            vals = [M.lin_eval(x, asg) for x in (lin(it[1]), lin(it[2]), lin(it[3]), lin(wp), N)]
+            if any(x is None or x.denominator != 1 for x in vals) or vals[2] <= 0:
+                continue
+            lo_, hi_, st_, pos, n_ = (int(x) for x in vals)
+            passes = list(range(lo_, hi_, st_))[:64]
+            bad = None
+            for k in passes:
+                ak = dict(asg)
+                ak[tat] = k
+                took = [r_ for fs_, r_ in arms if all(M.truth(t, ak) is pol for t, pol in fs_)]
+                undecided = any(any(M.truth(t, ak) is None for t, _ in fs_) for fs_, _ in arms)
+                if undecided or len({id(r_) for r_ in took}) != 1 and len({(show(r_["a"]), show(r_["b"])) if r_ else None for r_ in took}) != 1:
+                    bad = "?"
+                    break
+                if took[0] is None:
+                    continue
+                a_, b_ = took[0]["a"], took[0]["b"]
+                a1, b1 = M.lin_eval(a_, ak), M.lin_eval(b_, ak)
+                if a1 is None or b1 is None:
+                    bad = "?"
+                    break
+                if int(a1) != pos and int(b1) > int(a1):
+                    bad = {"pass": f"{show(lin(tat))} = {k}", "writes from": int(a1), "written up to": pos}
+                    break
+                pos = max(pos, int(b1))
+            if bad == "?":
+                continue
+            if bad is None and pos < n_:
+                bad = {"after the last pass the elements up to": pos, "are written of": n_}
+            if bad is not None:
+                return dict(bad, **{"for": {show(k_): x for k_, x in asg.items()}, "loop": show(it)[:120]})
+        return None
 
     for s in E.finals:
         if s.status not in ("run", "return"):
